@@ -7,11 +7,11 @@ ALL = [f'C{i:02d}' for i in range(1, 29)]
 CLAIMED = {
  'C06': dict(
     text="Theorems about the Lean replica of the execution stage (Aqua.Exec.runExec), for EVERY script, fuel, previous/current data, run parameters and call-result map, proved by the generic induction over the fuelled interpreter (exec_rel, instance Grow): C06_requests_numbered (requests of a run carry exactly the ids prev.lcid+1..prev.lcid+n in issue order), C06_ids_fresh (each id > previous counter, <= new counter, strictly increasing, counter monotone), C06_counter_ignores_current, C06_history_fresh (along any host-respecting run sequence all ids ever handed out are strictly increasing), and — over the network model Aqua.Net (Aqua/Run/Net.lean: hosts store the returned data, feed it back as previous data, deliver messages in any order incl. duplicates, answer pending requests late and in batches) — C06_network_ids_fresh: in EVERY reachable state of EVERY honest history, for every script, service behaviour and schedule, the ids ever handed to a peer's host are strictly increasing (no id is issued twice on a peer), C06_network_counter_bounds; proved by the invariant reachable_inv (every recorded run is a genuine invocation of the model on the recorded inputs; per peer, each run starts from what the preceding one returned). Routing of results to the requesting call and the 30000 report for unknown ids are covered by the correspondence/oracle part, not yet by a theorem (partial on that clause). Tie: lock-step correspondence of the executor model on every step of honest histories (incl. streams, canon, stream folds) (projection: code, counter, request ids) + direct oracles (id freshness per peer, results recorded at the call that requested them, unknown ids reported).",
-    note="Lean kernel + propext/Quot.sound; the executor model covers scalars, streams, canon streams and stream folds (stream maps / canon maps are skipped by the correspondence and counted); hashing and JSON parsing are parameters of the model (Env); the theorem is about the model, tied to the code by differential runs only.",
+    note="Lean kernel + propext/Quot.sound; the executor model covers scalars, streams, stream maps, canon streams, canon maps and all folds (nothing is skipped as unmodelled by the correspondence); hashing and JSON parsing are parameters of the model (Env); the theorem is about the model, tied to the code by differential runs only.",
     technique="Lean 4 proof: relational invariant through the fuelled interpreter (induction on fuel) + lock-step differential histories", design="§5.1, §8 C06"),
  'C19': dict(
     text="Theorems about Aqua.Exec.runExec for EVERY script, fuel, data pair, parameters and call results (same induction, exec_grow): C19_local_only (every call request of a run was issued for a call whose resolved peer is the current peer), C19_next_peers_not_self, C19_outcome_next_peers (any duplicate-free list with the same members, i.e. the HashSet round trip of farewell, has no duplicates and never names the current peer), C19_peer_ids_stable, C19_remote_call_forwarded (the one update that creates a sent-by-me call entry appends the call's resolved peer to the next peers in the same step), C19_canon_and_calls_never_forward_to_self (whole run, canon included); lifted to EVERY reachable state of the network model Aqua.Net (any script, services, schedule): C19_network_requests_local (every request any host was ever handed is for a call addressed to that host's peer), C19_network_never_forwards_to_self, C19_network_failed_run_inert; canon creation only at the addressed peer is C11_created_only_at_target. Quiescence (no sent-but-unexecuted entry once everything is delivered) is checked by the oracle on finished histories only (partial). Tie: lock-step correspondence (projection: code, next-peer set, requests) + direct oracle on every step.",
-    note="Lean kernel + propext/Quot.sound; executor model incl. streams and canon (stream maps / canon maps skipped and counted); forPeer is a ghost field of the model's request record.",
+    note="Lean kernel + propext/Quot.sound; executor model incl. streams, stream maps, canon streams and canon maps; forPeer is a ghost field of the model's request record.",
     technique="Lean 4 proof: relational invariant through the fuelled interpreter + lock-step differential histories", design="§5.1, §8 C19"),
  'C15': dict(
     text="Full-strength theorems about the model of DataVerifier::merge's per-peer step for EVERY pair of signed result lists: C15_merge_spec (succeeds iff one multiset contains the other, keeps the larger entry, previous on ties), C15_incomparable_rejected, C15_nested_keeps_larger(+'), C15_kept_contains_both, and C15_rejected_returns_prev over the staged runner (a failing verification stage returns prev data, no peers, empty requests). Multiset inclusion is List.Subperm (Mathlib), the executable count-based test is proved equivalent to it. Tie: the real DataVerifier::new/merge is run on crafted InterpreterData pairs (nested, equal, incomparable, multiplicity-only differences, peers on one side) and diffed with the model; forked single-peer histories are delivered to an observer through execute_air in both orders and checked against the property statement.",
